@@ -247,7 +247,7 @@ def run(ck):
     # -- lower seam: Decode of the iceberg / sql s3Decoder fetching these segments from S3 (bodies in several Reads,
     #    Content-Length set / unset / over-reported, transfers cut mid-body): exactly the records, or an error
     pick = [k for k in range(len(cases)) if res["built"][k].startswith("built ")]
-    pick = sorted(pick, key=lambda k: -len(res["built"][k]))[:2] + pick[:(6 if ck.quick() else 40)]
+    pick = sorted(pick, key=lambda k: -len(res["built"][k]))[:2] + pick[:(6 if ck.quick() else 18)]
     pick = sorted(set(pick))
     segs = [S.kv(res["built"][k])["seg"] for k in pick]
     s3ok = S3C.run_decoders(ck, bins, segs, [S.expected_records(cases[k]["batches"]) for k in pick], S.run_harness)
